@@ -82,6 +82,8 @@ var termPool = [][]termDef{
 	{{"EOL", `/[\x0A\x0D]+/`}, {"", ""}, {"", ""}},
 	{{"COMMENT", `/#[\x20-\x7E]*/`}, {"", ""}, {"", ""}},
 	{{"QUOTE", `"'"`}, {"BSL", `"\\"`}, {"", ""}, {"", ""}},
+	// blank characters that ARE tokens of the language (not named WS/EOL/COMMENT), next to blanks no token matches
+	{{"NL", `/\x0A/`}, {"NL", `/\x0D?\x0A/`}, {"TAB", `/\x09+/`}, {"", ""}, {"", ""}, {"", ""}},
 }
 
 func genSpecText(t *simrt.Tape, pkg string) string {
